@@ -8,6 +8,8 @@ VERIF = os.path.dirname(os.path.dirname(os.path.abspath(__file__)))
 REPLAY = os.path.join(VERIF, 'replay')
 HAVE = {'C01', 'C02', 'C16', 'C17', 'C18', 'C03', 'C04', 'C05', 'C06', 'C07', 'C08', 'C09', 'C10', 'C11', 'C12', 'C13', 'C14', 'C15', 'C19', 'C20'}
 RIDS = {'C08': ['C08', 'C08Q'], 'C07': ['C07']}     # replay-crate dispatch ids per property (default: the property id)
+# dispatch ids of the always-run bounded stand-in where it is a module of its own (the witness search keeps the property id)
+BRIDS = {'C15': ['C15E'], 'C02': ['C02E']}
 _cache = {}
 
 
@@ -27,7 +29,7 @@ def build_replay(pid=None):
         ct = os.path.join(cdir, 'Cargo.toml')
         txt = open(ct).read().replace('path = "/repo/', 'path = "%s/' % scratch.rstrip('/'))
         open(ct, 'w').write(txt)
-        feats = ','.join(r.lower() for r in RIDS.get(pid, [pid]))
+        feats = ','.join(r.lower() for r in RIDS.get(pid, [pid]) + BRIDS.get(pid, []))
         envs = dict(os.environ, CARGO_NET_OFFLINE='true', CARGO_INCREMENTAL='0', CARGO_TARGET_DIR='/tmp/vx-replay-scratch-target-%s' % tag)
         p = subprocess.run(['timeout', '1500', 'cargo', 'build', '--offline', '--quiet', '--no-default-features', '--features', feats], cwd=cdir, env=envs,
                            stdout=subprocess.PIPE, stderr=subprocess.STDOUT, text=True)
@@ -45,7 +47,7 @@ def build_replay(pid=None):
         # some OTHER property's module may no longer compile against this tree (changed types): build only this property's modules
         if not pid:
             return None
-        feats = ','.join(r.lower() for r in RIDS.get(pid, [pid]))
+        feats = ','.join(r.lower() for r in RIDS.get(pid, [pid]) + BRIDS.get(pid, []))
         tdir = os.path.join(REPLAY, 'target', 'only-' + pid)
         env2 = dict(env, CARGO_TARGET_DIR=tdir)
         p = subprocess.run(['timeout', '1500', 'cargo', 'build', '--offline', '--quiet', '--no-default-features', '--features', feats], cwd=REPLAY, env=env2,
@@ -79,6 +81,19 @@ def search(pid, seed, tier='quick'):
 
 
 BOUNDED = {
+    'C02': dict(what='END TO END on the real code: unindexed trade account events (the venue-side instrument / asset names) -> AccountEventIndexer over the real '
+                     'generate_execution_instrument_map -> EngineState::update_from_account, on two layouts (8 instruments on 3 exchanges, the same exchange symbol on up to '
+                     'three exchanges, shared asset names, index != position): every fill sequence up to a depth bound over small alphabets on instrument pairs / triples, the '
+                     'crafted c02 scripts on all instruments at once in several interleavings, seeded random histories (increase / reduce / exact close / flip); after EVERY event '
+                     'EVERY instrument: position = net filled quantity of its OWN instrument, closed record iff its net reaches or crosses zero, realised PnL and fee conservation, '
+                     'fill ids, instruments not named untouched',
+                bound={'quick': '~252k events', 'thorough': '~1.9M events'}),
+    'C15': dict(what='the REAL EngineState (and, for half of the random histories, Engine::process) over six instruments on several exchanges: every sequence with repetition '
+                     'up to a length bound over four event alphabets (trades with receive latency larger than the exchange-time gaps, equal / older exchange times, fills stamped '
+                     'later than the following market data, two-sided / one-sided / weighted L1 books) plus seeded random histories of 6..65 events; after every delivery: the '
+                     'instrument price is the priced delivery with the greatest exchange time (L1 volume-weighted mid before last trade), an open position is marked at the current '
+                     'price after a priced market event and at the fill price after an increasing / reducing fill (opening fills and flip remainders skipped: known finding)',
+                bound={'quick': '~1.06M deliveries', 'thorough': '~10M deliveries'}),
     'C05': dict(what='the REAL OrderBook / OrderBookSide against a BTreeMap model after every event of crafted and seeded random snapshot / update sequences: levels equal the map, '
                      'best-first, no duplicate prices, mid / volume-weighted mid price, snapshot(depth) for every depth on asymmetric books (0..4 x 0..4 levels, empty and '
                      'one-level sides), worst level re-priced then deleted; WIDE updates (21..300 levels a side, beyond the insertion-sort regime of sort_unstable) with a price '
@@ -95,7 +110,8 @@ BOUNDED = {
                      'by two exchanges) against a scripted ExecutionClient under the paused tokio clock: answers immediately / 1 ms / tau-1 / tau (tie) / tau+1 / late / never, Ok and '
                      'error kinds, untranslatable answers; 1..1000 outstanding requests, every answer order for small batches, Shutdown / stream close mid-flight: exactly one event per '
                      'accepted request (response iff answered at or before the timeout, else the timeout failure for the ORIGINAL request), attributed to exchange / instrument / cid, '
-                     'arrival order == completion order, nothing after shutdown',
+                     'arrival order == completion order, nothing after shutdown; the REAL ExecutionBuilder wiring (mock and scripted clients) over every arrangement of 1..3 traded and '
+                     '0..2 market-data-only exchanges: each request sent through the returned routing table is answered exactly once by ITS exchange, an untraded exchange has no link',
                 bound={'quick': '~20k cases', 'thorough': '~670k cases'}),
     'C11': dict(what='the REAL IndexedInstruments::new / builder / FromIterator on multisets of instrument definitions (spot, perpetual, future, option; settlement and quantity-unit '
                      'assets; 4 exchanges; shared asset names; duplicates) in every insertion order: key == position, values distinct, value set == distinct inputs, look-ups '
@@ -147,7 +163,8 @@ BOUNDED = {
     'C04': dict(what='constructors IndexedInstruments::new + generate_execution_instrument_map (iterator pipelines) checked on the REAL code: '
                      'every tuple of distinct spot-instrument definitions over 3 exchanges x 4 pairs with shared asset names, every definition order; '
                      'for every exchange map and every global index/name: only own indices translate, to the own exchange name, round trips are identity, '
-                     'order requests are addressed to the named instrument',
+                     'order requests are addressed to the named instrument; collections with REPEATED definitions (adjacent / non-adjacent / merged lists) through both '
+                     'IndexedInstruments::new and the builder: every distinct definition has exactly one index',
                 bound={'quick': 'up to 3 exchanges, up to 4 instruments per collection', 'thorough': 'up to 3 exchanges, up to 5 instruments per collection'}),
 }
 
@@ -223,7 +240,7 @@ def post_checks(pid, tier, seed, evidence):
     else:
         t0 = time.time()
         cases, rc, err = 0, 0, ''
-        for rid in RIDS.get(pid, [pid]):
+        for rid in BRIDS.get(pid, RIDS.get(pid, [pid])):
             p = subprocess.run(['timeout', '1800', binary, rid, str(seed), tier], stdout=subprocess.PIPE, stderr=subprocess.PIPE, text=True)
             for ln in p.stderr.split('\n'):
                 if ln.startswith('cases evaluated:'):
